@@ -29,7 +29,8 @@ from harness.trace import Run, result_str
 PROP = "C14"
 THEOREMS = ["Lbfgsb.C14.interleaving_independent", "Lbfgsb.C14.schedule_irrelevant", "Lbfgsb.C14.nested_independent",
             "Lbfgsb.C14.no_shared_mutable_state", "Lbfgsb.C14.no_mutable_default_written", "Lbfgsb.C14.display_is_read_only",
-            "Lbfgsb.C14.run_is_a_function", "Lbfgsb.C14.inputs_not_written"]
+            "Lbfgsb.C14.run_is_a_function", "Lbfgsb.C14.inputs_not_written",
+            "Lbfgsb.C14.display_evaluates_nothing"]
 MODULES = ["LbfgsbVerif.Props.C14"]
 IPRINTS = [-1, 0, 1, 3, 50, 99, 100, 101, 150]
 
